@@ -19,6 +19,7 @@ declare -A props=(
   [latlon_decoder_renamed]="C04 C12 C03"
   [emulator_cases_reordered]="C16 C17 C18 C06"
   [can_codec_renamed]="C15 C09 C14 C08"
+  [small_codecs_rewritten]="C14 C15 C19"
 )
 for f in harmless/*.diff; do
   n=$(basename $f .diff)
